@@ -259,7 +259,8 @@ def r2(ctx, chk):
     chk.ob(rule, "the first locale with a valid result returns it", ok and guarded, "",
            key={"function": f.key, "construct": "first success returns"}, file=f.file, function=f.qual, line=lp.lineno)
     # nothing recognised: date_obj None, locale None
-    orelse = lp.orelse
+    from ..core.ctx import loop_fallthrough
+    orelse = loop_fallthrough(f.node, lp)
     ok = len(orelse) == 1 and isinstance(orelse[0], ast.Return) and isinstance(orelse[0].value, ast.Call) and \
         _kw(orelse[0].value).get("date_obj") == "None" and _kw(orelse[0].value).get("locale") == "None" and _kw(orelse[0].value).get("period") == "'day'"
     chk.ob(rule, "when no locale succeeds the result has date_obj=None, period='day', locale=None", ok, "",
